@@ -20,4 +20,22 @@ PROPS = {
         "assumptions": ["u8..u128 arithmetic is modelled on Nat with explicit `% 2^k` at each cast/shift the source performs",
                         "leading_zeros is modelled as W - bitLen (Nat.log2)"],
     },
+    "C01": {
+        "streams": ["enc", "big"],
+        "disagreement_is_violation": True,
+        "rule": "enc requests (value text -> bytes) for every catalogue type (~270 instantiations: all primitives, compact, NonZero, Option/Result/OptionBool, all six collections, arrays, tuples to 18, String/Cow, Box/Rc/Arc, PhantomData, Duration, ranges, all bit stores x orders, Bytes, GenericArray, derived structs/enums incl. skip/compact/encoded_as/CompactAs/index attr/discriminant/recursive/transparent/generic) with boundary-biased values, plus vectors/deques/lists/sets whose lengths straddle k*16KiB/size_of. non-trivial = distinct request whose model answer is not `err`",
+        "level_text": "Proved in Lean for every well-formed value of every modelled type (structural induction over the type descriptor, no size bound): the transliterated encode_to (bulk path for the 12 primitive element types, compact_encode_len_to(..).expect, bit-sequence re-chunking with zero padding for all stores/orders, enum index byte, transparent wrappers) produces exactly Spec.encode, the written-out SCALE format, and reaches no panic site. Spec.encode is pinned by the repository's own hex vectors (kernel-checked `decide` examples). The model is tied to the crate by running both on every catalogue type's generated values each run.",
+        "level_note": "Trusted: Lean kernel; the hand-written model (differentially checked, not proved, against src/codec.rs, src/compact.rs, src/bit_vec.rs, src/generic_array.rs, derive/src/encode.rs); to_le_bytes / as_byte_slice / bitvec chunking modelled by contract; floats are bit patterns; memory reinterpretation in the bulk path assumed little-endian (harness reports the target's endianness).",
+        "trusted_base": COMMON_TB + ["to_le_bytes, byte-slice-cast (little-endian target), bitvec chunks/copy_from_bitslice modelled by contract"],
+        "assumptions": ["recursive derived types are modelled by finite unfoldings", "size_of values are measured by the harness and passed in the type descriptor"],
+    },
+    "C02": {
+        "streams": ["rt", "big"],
+        "rule": "dec requests on encode(v) ++ random suffix (0..3 bytes) for every catalogue type; lengths straddling k*16KiB/size_of for 22 element/collection combinations incl. ZST elements; oracle on the implementation: decoded value text == original (bit-equal floats, heaps as sorted multisets) and remaining == suffix length. non-trivial = distinct request whose model answer is not `err`",
+        "level_text": "Proved in Lean: for every well-formed value of every modelled type and every suffix, running the transliterated decoder (chunked item reader, bulk read_vec_from_u8s, hook calls, PrefixInput reads, from_iter for maps/sets, bit-sequence truncation) on Spec.encode v ++ rest returns (norm v, rest) - by structural induction, so it crosses the 16 KiB chunk loop for all lengths. norm is the identity except that heaps are compared as sorted multisets (permutation proved). Tied to the crate by the rt/big streams and by the implementation-side oracle decode(encode v) == v.",
+        "level_note": "Trusted: as C01. Hypotheses, all decidable and exhibited satisfiable: wf (ranges, counts < 2^32, bits < 2^29, valid UTF-8), canon (map/set keys strictly increasing under the modelled Ord - std's Ord is a contract, exercised by the tie), layoutOk (the crate's own compile-time size_of <= MAX_PREALLOCATION assertion). Values in a skipped variant are excluded (no encoding by design); skipped fields are not part of the model value (the harness checks they come back as Default).",
+        "trusted_base": COMMON_TB + ["std Ord of key types, BTreeMap/BTreeSet::from_iter, BinaryHeap::from(Vec), String::from_utf8 modelled by contract"],
+        "assumptions": ["equality of derived types is equality of the model value text (skipped fields excluded)"],
+        "also_oracles": [],
+    },
 }
